@@ -3,9 +3,10 @@
 tier="${1:-quick}"; shift
 props="$@"; [ -z "$props" ] && props="C01 C02 C03 C04 C05 C06 C07 C08 C09 C10 C11 C12 C13 C14 C15 C16 C17 C18 C19 C20"
 cd "$(dirname "$0")/.."
+logd="${RUNALL_LOG:-/tmp}"; mkdir -p "$logd"
 for p in $props; do
   s=$(date +%s)
-  ./check $p --tier $tier > /tmp/runall_$p.log 2>&1; rc=$?
+  ./check $p --tier $tier > $logd/runall_$p.log 2>&1; rc=$?
   e=$(date +%s)
-  echo "$p rc=$rc $((e-s))s $(grep -c VIOLATION /tmp/runall_$p.log) violations, $(grep -c KNOWN-FINDING /tmp/runall_$p.log) known"
+  echo "$p rc=$rc $((e-s))s $(grep -c VIOLATION $logd/runall_$p.log) violations, $(grep -c KNOWN-FINDING $logd/runall_$p.log) known"
 done
